@@ -128,19 +128,34 @@ def mcast_mac4(ip4addr):
 class Endp:
     """A (client, server) addressing context used to wrap L4 payloads into frames."""
 
-    def __init__(self, cmac, smac, cip, sip, ttl=64):
+    def __init__(self, cmac, smac, cip, sip, ttl=64, fuzz=None):
         self.cmac, self.smac, self.cip, self.sip, self.ttl = cmac, smac, cip, sip, ttl
         self.v6 = len(cip) == 16
+        # fuzz: a random.Random; when set, header fields that must not influence any answer are drawn at random per
+        # frame (IPv4 id / TOS / DF / TTL, IPv6 traffic class / flow label / hop limit, TCP window / urgent pointer)
+        self.fuzz = fuzz
 
     def l3(self, proto, l4):
+        r = self.fuzz
         if self.v6:
+            if r is not None and r.random() < 0.5:
+                return eth(self.smac, self.cmac, ET_IP6, ip6(self.cip, self.sip, proto, l4, hlim=r.choice([1, 2, 64, 128, 255]), tc=r.getrandbits(8),
+                                                             fl=r.getrandbits(20)))
             return eth(self.smac, self.cmac, ET_IP6, ip6(self.cip, self.sip, proto, l4, hlim=self.ttl))
+        if r is not None and r.random() < 0.5:
+            return eth(self.smac, self.cmac, ET_IP4, ip4(self.cip, self.sip, proto, l4, ttl=r.choice([1, 2, 64, 128, 255]), ident=r.getrandbits(16),
+                                                         frag=r.choice([0, 0x4000]), tos=r.getrandbits(8)))
         return eth(self.smac, self.cmac, ET_IP4, ip4(self.cip, self.sip, proto, l4, ttl=self.ttl))
 
     def udp(self, sp, dp, pl):
         return self.l3(P_UDP, udp(self.cip, self.sip, sp, dp, pl))
 
     def tcp(self, sp, dp, seq, ack, flags, pl=b"", **kw):
+        r = self.fuzz
+        if r is not None and "win" not in kw and r.random() < 0.5:
+            kw["win"] = r.choice([0, 1, 1024, 29200, 65535, r.getrandbits(16)])
+            if not flags & URG:
+                kw.setdefault("urg", r.choice([0, 0, r.getrandbits(16)]))
         return self.l3(P_TCP, tcp(self.cip, self.sip, sp, dp, seq, ack, flags, pl, **kw))
 
     def echo(self, ident, seqn, data, code=0, typ=None):
